@@ -73,7 +73,7 @@ fn c01_strategy(tier: Tier) -> BoxedStrategy<Case> {
             casei: 1,
             ..CfgOpts::default()
         },
-        pats: PatOpts { w_empty: 8, max_class: if tier == Tier::Thorough { 2 } else { 1 }, long: true, ..PatOpts::default() },
+        pats: PatOpts { w_empty: 8, max_class: if tier == Tier::Thorough { 2 } else { 1 }, long: true, w_fanout: 1, ..PatOpts::default() },
         hay: HayOpts { size_class: 1 },
         full_span_only: false,
         alphabets: gen::default_alphabets(),
@@ -156,7 +156,7 @@ fn c02_strategy(tier: Tier) -> BoxedStrategy<Case> {
     gen::search_case(SearchOpts {
         prop: "C02",
         cfg: CfgOpts { mks: vec![Mk::Standard], anchored: 0, casei: 1, ..CfgOpts::default() },
-        pats: PatOpts { w_empty: 6, max_class: if tier == Tier::Thorough { 2 } else { 1 }, long: true, ..PatOpts::default() },
+        pats: PatOpts { w_empty: 6, max_class: if tier == Tier::Thorough { 2 } else { 1 }, long: true, w_fanout: 1, ..PatOpts::default() },
         hay: HayOpts { size_class: 1 },
         full_span_only: false,
         alphabets: gen::default_alphabets(),
@@ -226,7 +226,7 @@ fn c03_strategy(tier: Tier) -> BoxedStrategy<Case> {
     gen::search_case(SearchOpts {
         prop: "C03",
         cfg: CfgOpts { mks: vec![Mk::Standard], anchored: 0, casei: 1, ..CfgOpts::default() },
-        pats: PatOpts { w_empty: 10, max_class: if tier == Tier::Thorough { 2 } else { 1 }, long: true, ..PatOpts::default() },
+        pats: PatOpts { w_empty: 10, max_class: if tier == Tier::Thorough { 2 } else { 1 }, long: true, w_fanout: 1, ..PatOpts::default() },
         hay: HayOpts { size_class: 1 },
         full_span_only: false,
         alphabets: gen::default_alphabets(),
@@ -306,7 +306,7 @@ fn c09_strategy(tier: Tier) -> BoxedStrategy<Case> {
     gen::search_case(SearchOpts {
         prop: "C09",
         cfg: CfgOpts { anchored: 2, sks: vec![Sk::Anchored, Sk::Both], casei: 1, ..CfgOpts::default() },
-        pats: PatOpts { w_empty: 5, max_class: if tier == Tier::Thorough { 2 } else { 1 }, long: true, ..PatOpts::default() },
+        pats: PatOpts { w_empty: 5, max_class: if tier == Tier::Thorough { 2 } else { 1 }, long: true, w_fanout: 1, ..PatOpts::default() },
         hay: HayOpts { size_class: 1 },
         full_span_only: false,
         alphabets: gen::default_alphabets(),
@@ -449,7 +449,7 @@ fn c14_strategy(_tier: Tier) -> BoxedStrategy<Case> {
     gen::search_case(SearchOpts {
         prop: "C14",
         cfg: CfgOpts { anchored: 1, casei: 1, ..CfgOpts::default() },
-        pats: PatOpts { w_empty: 5, max_class: 1, long: true, w_shapes: 6, w_adversarial: 1, w_fanout: 0 },
+        pats: PatOpts { w_empty: 5, max_class: 1, long: true, w_shapes: 6, w_adversarial: 1, w_fanout: 1 },
         hay: HayOpts { size_class: 2 },
         full_span_only: false,
         alphabets: gen::default_alphabets(),
